@@ -386,6 +386,180 @@ def check_transform(ctx, db):
     ctx.require('R-DEP (kind, parameter, valuation) obligations', n, 50)
 
 
+# ---------------------------------------------------------------- Repetition::transform as polynomial identities
+
+def norm(t):
+    return re.sub(r'<[A-Za-z]+:(?!:)[^>]*>', '', t).replace('gdstk::', '')
+
+
+def check_transform_algebra(ctx, db):
+    """For every kind and every valuation of (magnification != 1, x_reflection, rotation != 0) the statements executed on
+    that path are folded into polynomials over {magnification, cos(rotation), sin(rotation), input components}; the stored
+    vectors must be identically  m R(rotation) diag(1, +-1) (x, y)  (cos = 1, sin = 0, m = 1 where the valuation says so)."""
+    from .. import symdiff as S
+    f = db.fn('gdstk::Repetition::transform')
+    vals = tables.enum_values(db, RT)
+    names = {v: k for k, v in vals.items()}
+    sw = tables.switches_on(f, 'RepetitionType')[0]
+
+    class A(S.Algebra):
+        def value(self, e, env):
+            e0 = _strip_casts(e)
+            if e0 is not None and e0.k == 'UnaryOperator' and e0.op == '*':
+                sub = _strip_casts(e0.child('sub'))
+                while sub.k == 'UnaryOperator' and sub.op in ('post++', '++'):
+                    sub = _strip_casts(sub.child('sub'))
+                if sub.k == 'DeclRefExpr' and ('*' + sub.n) in env:
+                    return env['*' + sub.n]
+            if e0 is not None and e0.k == 'MemberExpr' and e0.n:
+                arrow = bool(e0.arrow)
+                b = _strip_casts(e0.child('base')) if e0.child('base') is not None else None
+                while b is not None and b.k == 'MemberExpr' and not b.n:
+                    arrow = arrow or bool(b.arrow)
+                    b = _strip_casts(b.child('base')) if b.child('base') is not None else None
+                if arrow and b is not None and b.k == 'DeclRefExpr' and ('*' + b.n) in env:
+                    v = env['*' + b.n]
+                    return v[1] if e0.n in ('x', 'u', 're') else v[2]
+            return S.Algebra.value(self, e, env)
+
+    def target(alg, lhs, env):
+        """(storage key, component or None)"""
+        l = _strip_casts(lhs)
+        if l.k == 'DeclRefExpr':
+            return l.n, None
+        if l.k == 'UnaryOperator' and l.op == '*':
+            sub = _strip_casts(l.child('sub'))
+            while sub.k == 'UnaryOperator' and sub.op in ('post++', '++'):
+                sub = _strip_casts(sub.child('sub'))
+            if sub.k == 'DeclRefExpr':
+                return '*' + sub.n, None
+        if l.k == 'MemberExpr':
+            arrow = bool(l.arrow)
+            b = _strip_casts(l.child('base')) if l.child('base') is not None else None
+            while b is not None and b.k == 'MemberExpr' and not b.n:
+                arrow = arrow or bool(b.arrow)
+                b = _strip_casts(b.child('base')) if b.child('base') is not None else None
+            comp = {'x': 1, 'u': 1, 're': 1, 'y': 2, 'v': 2, 'im': 2}.get(l.n)
+            if b is None or b.k == 'CXXThisExpr':
+                return l.n, None
+            if comp and b.k == 'DeclRefExpr':
+                return ('*' + b.n) if arrow else b.n, comp
+            if comp and b.k == 'MemberExpr':
+                bb = _strip_casts(b.child('base')) if b.child('base') is not None else None
+                while bb is not None and bb.k == 'MemberExpr' and not bb.n:
+                    bb = _strip_casts(bb.child('base')) if bb.child('base') is not None else None
+                if bb is None or bb.k == 'CXXThisExpr':
+                    return b.n, comp
+        raise S.Unsupported('assignment target `%s`' % lhs.text()[:40])
+
+    def store(alg, env, key, comp, val):
+        if comp is None:
+            env[key] = val
+        else:
+            cur = env.get(key)
+            if cur is None or not alg.isvec(cur):
+                cur = alg.vec(S.P(0), S.P(0))
+            env[key] = alg.vec(val, cur[2]) if comp == 1 else alg.vec(cur[1], val)
+
+    IGNORE_CALLS = ('ensure_slots', 'clear')
+    n = 0
+    for labels, stmts, top in tables.switch_arms(sw):
+        for l in labels:
+            kind = names.get(l)
+            if kind in (None, 'None') or l == 'default':
+                continue
+            for bits in range(8):
+                mag, refl, rot = bool(bits & 1), bool(bits & 2), bool(bits & 4)
+                envc = {'magnification != 1': mag, 'x_reflection': refl, 'rotation != 0': rot}
+                alg = A(db, None)
+                m_ = S.atom('magnification') if mag else S.P(1)
+                env = {'magnification': m_}
+                if not rot:
+                    env['rotation'] = S.P(0)
+                x_, y_ = S.atom('x'), S.atom('y')
+                if kind == 'Rectangular':
+                    env['spacing'] = alg.vec(S.atom('sx'), S.atom('sy'))
+                elif kind == 'Regular':
+                    env['v1'] = alg.vec(S.atom('ax'), S.atom('ay'))
+                    env['v2'] = alg.vec(S.atom('bx'), S.atom('by'))
+                elif kind == 'Explicit':
+                    env['*v'] = alg.vec(x_, y_)
+                else:
+                    env['*c'] = S.atom('c')
+                    env['*v'] = alg.vec(S.P(0), S.P(0))
+                retag = None
+                try:
+                    for s, g in tables.executed(stmts, envc, []):
+                        if s.k == 'DeclStmt':
+                            for v in s.c:
+                                if v is None or v.k != 'VarDecl' or v.child('init') is None:
+                                    continue
+                                if '*' in (v.t or '') or 'Array<' in (v.t or '') or not re.search(r'double|Vec2', v.t or ''):
+                                    continue   # cursors / scratch arrays (elements are modelled by '*name'), loop counters
+                                env[v.n] = alg.value(v.child('init'), env)
+                        elif is_assign(s) or s.k == 'CompoundAssignOperator' or (s.k == 'CXXOperatorCallExpr' and s.op in ('*=',)):
+                            lhs = s.args[0] if s.k == 'CXXOperatorCallExpr' else s.child('lhs')
+                            rhs = s.args[1] if s.k == 'CXXOperatorCallExpr' else s.child('rhs')
+                            lt = norm(lhs.text())
+                            if lt in ('this->type',):
+                                retag = norm(rhs.text()).split('::')[-1]
+                                continue
+                            if lt in ('this->offsets', 'v151.count') or lt.endswith('.count'):
+                                continue
+                            key, comp = target(alg, lhs, env)
+                            val = alg.value(rhs, env)
+                            if s.op in ('*=',):
+                                cur = env.get(key)
+                                if cur is None:
+                                    raise S.Unsupported('compound update of unknown `%s`' % key)
+                                if comp is not None:
+                                    cur = cur[comp]
+                                val = alg.vmul(cur, val)
+                            elif s.op != '=':
+                                raise S.Unsupported('operator %s' % s.op)
+                            store(alg, env, key, comp, val)
+                        elif s.k == 'CXXMemberCallExpr' and (s.callee or '').split('::')[-1] in IGNORE_CALLS:
+                            continue
+                        elif s.k in ('BreakStmt', 'ReturnStmt', 'NullStmt'):
+                            continue
+                        elif s.k in ('BinaryOperator', 'UnaryOperator', 'ImplicitCastExpr', 'ParenExpr') or s.parent is not None and s.parent.k in ('ForStmt', 'IfStmt'):
+                            continue   # loop headers / conditions
+                        else:
+                            raise S.Unsupported('statement %s `%s`' % (s.k, s.text()[:40]))
+                except S.Unsupported as e:
+                    raise AnalysisBroken('Repetition::transform/%s is outside the algebra: %s' % (kind, e))
+                C_ = alg.fatom('cos', S.atom('rotation')) if rot else S.P(1)
+                Sn = alg.fatom('sin', S.atom('rotation')) if rot else S.P(0)
+                rho = S.P(-1) if refl else S.P(1)
+
+                def T(v):
+                    x, y = v[1], v[2]
+                    return alg.vec(S.mul(m_, S.add(S.mul(C_, x), S.mul(S.mul(Sn, rho), y), -1)), S.mul(m_, S.add(S.mul(Sn, x), S.mul(S.mul(C_, rho), y))))
+                pairs = []
+                z = S.P(0)
+                if kind == 'Rectangular':
+                    if retag == 'Regular':
+                        pairs = [(env.get('v1'), T(alg.vec(S.atom('sx'), z))), (env.get('v2'), T(alg.vec(z, S.atom('sy'))))]
+                    else:
+                        sp = env['spacing']
+                        pairs = [(alg.vec(sp[1], z), T(alg.vec(S.atom('sx'), z))), (alg.vec(z, sp[2]), T(alg.vec(z, S.atom('sy'))))]
+                elif kind == 'Regular':
+                    pairs = [(env['v1'], T(alg.vec(S.atom('ax'), S.atom('ay')))), (env['v2'], T(alg.vec(S.atom('bx'), S.atom('by'))))]
+                elif kind == 'Explicit':
+                    pairs = [(env['*v'], T(alg.vec(x_, y_)))]
+                elif kind == 'ExplicitX':
+                    pairs = [((env['*v'] if retag == 'Explicit' else alg.vec(env['*c'], z)), T(alg.vec(S.atom('c'), z)))]
+                elif kind == 'ExplicitY':
+                    pairs = [((env['*v'] if retag == 'Explicit' else alg.vec(z, env['*c'])), T(alg.vec(z, S.atom('c'))))]
+                n += 1
+                ctx.explored['valuations'] += 1
+                bad = next(((got, want) for got, want in pairs if got is None or not alg.equal(got, want)), None)
+                key = 'Repetition::transform/%s/algebra|%s' % (kind, ','.join(a for a, v in envc.items() if v) or 'identity')
+                ctx.check(bad is None, 'R-ALGEBRA', key, top.loc(), 'stored vectors are identically m R(rotation) diag(1, %s1) applied to the originals' % ('-' if refl else '+'),
+                          None if bad is None else 'for kind %s with {%s} the stored vector is %s, the affine map gives %s' % (kind, ', '.join(a for a, v in envc.items() if v), alg.render(bad[0]) if bad[0] is not None else 'unset', alg.render(bad[1])))
+    ctx.require('R-ALGEBRA transform valuations', n, 40)
+
+
 def run(ctx):
     db = ctx.db
     frozen = {('gdstk::Repetition::transform', 0): ['Rectangular', 'Regular', 'Explicit', 'ExplicitX', 'ExplicitY']}
@@ -403,6 +577,7 @@ def run(ctx):
     check_get_extrema(ctx, db)
     check_apply_repetition(ctx, db)
     check_transform(ctx, db)
+    check_transform_algebra(ctx, db)
     # copies made by apply_repetition are built with the element's copy_from: every field copied from the same field
     from .. import copyrule
     from . import C06
@@ -416,7 +591,7 @@ def run(ctx):
 
 
 MANIFEST = dict(
-    text='Decides structural necessary conditions for all repetition kinds: exhaustive kind coverage in every consumer; get_offsets writes the zero vector first and exactly get_count() vectors per kind; get_extrema returns exactly the lattice corners for each columns/rows degeneracy combination (symbolic corner algebra) and keeps a consistent running min/max for explicit kinds; the five apply_repetition bodies are one clone family with clear() dominating every copy and count-1 copies from the second offset, and the five element copy_from functions they use copy every field from the same field of the source (owning fields through their copier); Repetition::transform depends, on every one of the 8 parameter valuations and for every kind, on each non-neutral parameter (path enumeration over predicate atoms), and retags exactly when the kind cannot represent the image. Numeric values of offsets/extremes are not decided.',
+    text='Decides structural necessary conditions for all repetition kinds: exhaustive kind coverage in every consumer; get_offsets writes the zero vector first and exactly get_count() vectors per kind; get_extrema returns exactly the lattice corners for each columns/rows degeneracy combination (symbolic corner algebra) and keeps a consistent running min/max for explicit kinds; the five apply_repetition bodies are one clone family with clear() dominating every copy and count-1 copies from the second offset, and the five element copy_from functions they use copy every field from the same field of the source (owning fields through their copier); Repetition::transform depends, on every one of the 8 parameter valuations and for every kind, on each non-neutral parameter (path enumeration over predicate atoms), retags exactly when the kind cannot represent the image, and - folding the statements executed on each of the 40 (kind, valuation) paths into polynomials over magnification, cos/sin(rotation) and the input components - stores exactly m R(rotation) diag(1, +-1) applied to the original vectors. Numeric values of offsets/extremes are not decided.',
     note='Trusted: clang front end, gx, sa rules; exemption: ExplicitX is invariant under x-reflection (stated in the checker). Corner algebra recognises Vec2{a,b}, k*v, v+w and single-initialiser locals only; anything else is reported as uninterpretable (violation naming the expression).',
     technique='enum exhaustiveness + symbolic per-arm evaluation + predicate-atom path enumeration (dependence) + clone families',
     design='§4 C11')
